@@ -261,6 +261,8 @@ def parse_fields(spec, body):
     """Split `body` (payload without the type byte) into the encoded bytes of each field of `spec`."""
     out, pos = [], 0
     for kind in spec:
+        if isinstance(kind, (tuple, list)):
+            kind = "str"            # ("str", inner_spec): a string holding a nested message
         if kind in FIXED:
             n = FIXED[kind]
         elif kind in LENP:
@@ -286,6 +288,8 @@ def _lp(b):
 
 def field_deviations(kind):
     """Symbolic single-field deviations for one field kind."""
+    if isinstance(kind, (tuple, list)):
+        return ["empty", "badutf8", "len1M", "lenmax"]
     if kind in ("str", "text"):
         return ["empty", "badutf8", "len1M", "lenmax"]
     if kind == "list":
@@ -303,20 +307,65 @@ def deviations(spec, quick_types=(), all_types=False):
     """All single deviations of one message: list of tuples (symbolic, JSON-able)."""
     out = [("trunc-after", -1)]
     for i, kind in enumerate(spec):
-        n = FIXED.get(kind)
+        n = FIXED.get(kind) if isinstance(kind, str) else None
         if n is None or n > 1:
             out.append(("trunc-mid", i))
-        if kind in LENP:
+        if kind in LENP or not isinstance(kind, str):
             out.append(("trunc-len", i))
         if i < len(spec) - 1:
             out.append(("trunc-after", i))
         for d in field_deviations(kind):
             out.append(("field", i, d))
+        if isinstance(kind, (tuple, list)):         # one deviation inside the nested blob
+            inner = kind[1]
+            out.append(("nested-trunc", i, -1))
+            for j, ik in enumerate(inner):
+                if j < len(inner) - 1:
+                    out.append(("nested-trunc", i, j))
+                if ik in LENP:
+                    out.append(("nested-mid", i, j))
+                for d in field_deviations(ik):
+                    out.append(("nested", i, j, d))
+            out.append(("nested-append", i))
     out.append(("append64",))
     out.append(("empty-payload",))
     for t in (range(256) if all_types else quick_types):
         out.append(("wrongtype", t))
     return out
+
+
+def _edit_field(f, d):
+    """Encoded field bytes -> deviating encoded field bytes."""
+    if d == "empty":
+        return _lp(b"")
+    if d == "badutf8":
+        return _lp(b"\xff\xfe")
+    if d == "len1M":
+        return (1 << 20).to_bytes(4, "big") + f[4:]
+    if d == "lenmax":
+        return b"\xff\xff\xff\xff" + f[4:]
+    if d == "empty-elem":
+        return _lp(b"," + f[4:])
+    if d == "nonascii":
+        return _lp("élgo,".encode("utf8") + f[4:])
+    if d == "mp-neg":
+        b = f[4:].lstrip(b"\0") or b"\x01"
+        return _lp(bytes([b[0] | 0x80]) + b[1:])
+    if d == "mp-huge":
+        return _lp(b"\x01" + b"\0" * 1125)          # 2**9000
+    if d == "mp-one":
+        return _lp(b"\x01")
+    if d == "i0":
+        return (0).to_bytes(4, "big")
+    if d == "i1":
+        return (1).to_bytes(4, "big")
+    if d == "i2^31":
+        return (1 << 31).to_bytes(4, "big")
+    if d == "imax":
+        return b"\xff\xff\xff\xff"
+    if d == "b2":
+        return b"\x02"
+    raise ValueError(d)
 
 
 def apply_deviation(dev, raw, spec, filler=b"\xa5" * 64):
@@ -339,7 +388,7 @@ def apply_deviation(dev, raw, spec, filler=b"\xa5" * 64):
     if what == "trunc-mid":
         i = dev[1]
         f = fields[i]
-        kind = spec[i]
+        kind = spec[i] if isinstance(spec[i], str) else "str"
         cut = (4 + (len(f) - 4) // 2) if kind in LENP else len(f) // 2
         if kind in LENP and len(f) == 4:
             cut = 2
@@ -349,40 +398,23 @@ def apply_deviation(dev, raw, spec, filler=b"\xa5" * 64):
         return ptype + b"".join(fields[:i]) + fields[i][:2]
     if what == "field":
         i, d = dev[1], dev[2]
-        f = fields[i]
-        kind = spec[i]
-        if d == "empty":
-            nf = _lp(b"")
-        elif d == "badutf8":
-            nf = _lp(b"\xff\xfe")
-        elif d == "len1M":
-            nf = (1 << 20).to_bytes(4, "big") + f[4:]
-        elif d == "lenmax":
-            nf = b"\xff\xff\xff\xff" + f[4:]
-        elif d == "empty-elem":
-            nf = _lp(b"," + f[4:])
-        elif d == "nonascii":
-            nf = _lp("élgo,".encode("utf8") + f[4:])
-        elif d == "mp-neg":
-            b = f[4:].lstrip(b"\0") or b"\x01"
-            nf = _lp(bytes([b[0] | 0x80]) + b[1:])
-        elif d == "mp-huge":
-            nf = _lp(b"\x01" + b"\0" * 1125)          # 2**9000
-        elif d == "mp-one":
-            nf = _lp(b"\x01")
-        elif d == "i0":
-            nf = (0).to_bytes(4, "big")
-        elif d == "i1":
-            nf = (1).to_bytes(4, "big")
-        elif d == "i2^31":
-            nf = (1 << 31).to_bytes(4, "big")
-        elif d == "imax":
-            nf = b"\xff\xff\xff\xff"
-        elif d == "b2":
-            nf = b"\x02"
+        return ptype + b"".join(fields[:i]) + _edit_field(fields[i], d) + b"".join(fields[i + 1:])
+    if what in ("nested", "nested-trunc", "nested-mid", "nested-append"):
+        i = dev[1]
+        inner_spec = spec[i][1]
+        inner = parse_fields(inner_spec, fields[i][4:])
+        if what == "nested":
+            j, d = dev[2], dev[3]
+            blob = b"".join(inner[:j]) + _edit_field(inner[j], d) + b"".join(inner[j + 1:])
+        elif what == "nested-trunc":
+            blob = b"".join(inner[:dev[2] + 1])
+        elif what == "nested-mid":
+            j = dev[2]
+            f = inner[j]
+            blob = b"".join(inner[:j]) + f[:4 + (len(f) - 4) // 2]
         else:
-            raise ValueError(dev)
-        return ptype + b"".join(fields[:i]) + nf + b"".join(fields[i + 1:])
+            blob = fields[i][4:] + filler[:16]
+        return ptype + b"".join(fields[:i]) + _lp(blob) + b"".join(fields[i + 1:])
     raise ValueError(dev)
 
 
